@@ -20,6 +20,11 @@ def main():
             note = "first missed; check strengthened"
         elif m.get("history"):
             note = "check strengthened" if "strengthened" in m["history"] or "added" in m["history"] else "see meta.json"
+        first = m.get("checks_first_run") or {}
+        own = first.get(m["property"])
+        if own is not None and not own.get("caught"):
+            others = [k for k, v in first.items() if v.get("caught")]
+            note = "first missed%s; check strengthened" % ((" by %s (caught by %s)" % (m["property"], ", ".join(others))) if others else "")
         mech = "; ".join("%s: %s" % (k, (m["checks"][k]["mechanisms"][0].replace("violation mechanism ", "") if m["checks"][k]["mechanisms"] else "")) for k in caught)
         print("| %s | %s | %s | %s | %s | %s | %s |" % (name, m["property"], m["summary"].replace("|", "/"), m["needs_to_manifest"].replace("|", "/")[:220], mech.replace("|", "/"),
                                                        ", ".join(missed) or "-", note))
